@@ -41,6 +41,21 @@ def run(prop, tier, seed, scratch, t0):
             r, d = f.result()
             tl.append(r)
             dr.append(d)
+    if prop == "C09":  # channel.ActionMachine: ActionMachine.tla, every edge
+        for (n, me) in ([(2, 0), (2, 1)] if tier == "quick" else [(2, 0), (2, 1), (3, 1)]):
+            ra = vlib.tlc(scratch, "ActionMachine", "CONSTANTS N = %d Me = %d MaxVer = 2\nSPECIFICATION Spec\nINVARIANTS CurrentAfterInit\n"
+                          "CHECK_DEADLOCK FALSE\n" % (n, me), name="ActionMachine_N%dMe%d" % (n, me), workers=1,
+                          extra=["-dump", "dot,actionlabels", "graph.dot"], timeout=3000)
+            if not ra["ok"]:
+                raise vlib.Inconclusive("TLC reports %s in ActionMachine.tla itself" % ra["violated"])
+            adot = os.path.join(ra["dir"], "graph.dot")
+            da = vlib.run_driver(binary, "TestActionMachine", dict(VERIF_DOT=adot, VERIF_N=n, VERIF_ME=me, VERIF_SEED=seed), scratch,
+                                 "am%d%d" % (n, me), timeout=3000)
+            os.remove(adot)
+            da["counts"] = dict(actionmachine_edges=da["counts"].get("edges_executed", 0), actionmachine_steps=da["counts"].get("steps", 0))
+            ra["out"] = ""
+            tl.append(ra)
+            dr.append(da)
     counts = vlib.merge_counts(dr)
     viol = [v for d in dr for v in d["violations"]]
     other = "C09" if prop == "C01" else "C01"
